@@ -801,7 +801,12 @@ var ttCorpus = []ttCorpusDoc{
 	{"text directly in div/body is ignored, p outside div is ignored", `<tt><body>t<p begin="1s" end="2s">no</p><div>u<p begin="1s" end="2s">yes</p>v</div></body></tt>`, nil},
 	{"style without id, empty references", ttWrap(`<head><styling><style tts:color="c"/></styling></head>`, `<p begin="1s" end="2s" style="" region="">x</p>`), nil},
 	{"several begin attributes, one malformed", `<tt xmlns:a="u1" xmlns:b="u2"><body><div><p a:begin="x" b:begin="2s" end="3s">x</p></div></body></tt>`, nil},
-	{"non-breaking and ideographic space at the start of bare text", ttWrap("", "<p begin=\"1s\" end=\"2s\">\u00a0a<br/>\n  \u3000b<span>\u00a0c</span></p>"), nil},
+	{"non-breaking and ideographic space at the start of bare text, a bare no-break space between spans", ttWrap("", "<p begin=\"1s\" end=\"2s\">\u00a0a<br/>\n  \u3000b<span>\u00a0c</span>\u00a0<span>d</span></p>"), func(v tvDoc) string {
+		if l := v.Items[0].Lines; len(l) != 2 || len(l[0]) != 1 || len(l[1]) != 4 || l[0][0].Text != "\u00a0a" || l[1][0].Text != "\u3000b" || l[1][1].Text != "\u00a0c" || l[1][2].Text != "\u00a0" || l[1][3].Text != "d" {
+			return "lines " + showLines(v.Items[0].Lines)
+		}
+		return ""
+	}},
 	{"tab indentation, blank lines, trailing blanks on text lines", ttWrap("", "<p begin=\"1s\" end=\"2s\">\n\t\tfirst  \n\n\t\t<br/>\n\t\tsecond\t\n\t</p>"), nil},
 	{"duplicate attributes by local name", `<tt xmlns:a="u1" xmlns:b="u2"><body><div><p a:begin="1s" b:begin="2s" end="3s" a:color="x" b:color="y">x</p></div></body></tt>`, nil},
 }
